@@ -12,7 +12,15 @@
      indices the real KD-tree returns are CHECKED against the specification inside Coq (nearest_okb, C19_nearest_accept);
      prune: soundness and the (1+eps) band are proved under the query contract stated as Section hypotheses
      (C19_prune_partial), and the kept indices observed are checked against that band inside Coq (C19_prune_accept);
-   - sqrt: `euclidean` is sqrt(euclidean2) over R; an observed root is accepted through its specification (C19_sqrt_close). *)
+   - sqrt: `euclidean` is sqrt(euclidean2) over R; an observed root is accepted through its specification (C19_sqrt_close).
+
+   Outside the model (known findings, recorded in known_findings: the shipped extension cannot be rebuilt here):
+   - memory layout / overload dispatch of the Python binding: a float64 argument that is not C-contiguous is computed by the
+     float32 kernel (the theorems are about the kernels as functions of the array CONTENTS; the shards steer around that region);
+   - arrays whose last axis is not 3: a point is a `vec` (exactly three coordinates) by typing, as the template argument ND = 3.
+   Boundary conventions: the model's nearest/prune use `<=` at the cut-off as the code's np.where does; scipy's
+   distance_upper_bound is exclusive, so AT the cut-off the real code answers -1 / drops the point.  The acceptance tests
+   (nearest_okb, prune_okb) accept both answers there, which is also what the property's rounding-band clause allows. *)
 From Coq Require Import Reals List ZArith QArith Qround Lia.
 From Molli Require Import Common.Field3 Common.Field3R Model.Dist Proofs.Dist Model.Grid Proofs.Grid.
 Import ListNotations.
